@@ -7,7 +7,9 @@
    prs (fmt x) = Some x, no TAB/LF in fmt x, fmt x <> '.' (part of [gff_wf]). *)
 From Coq Require Import List NArith Lia.
 From NV Require Import Base.Percent Base.PercentProofs Text.TextBase Text.TextBaseProofs
-  Text.Gff Text.GffProofs Text.Gtf Text.GtfProofs Text.Bed Text.BedProofs Text.BedRec Text.BedRecProofs Text.BedTyped Text.BedTypedProofs Text.GffLine Text.GffLineProofs Text.GtfLine Text.GtfLineProofs Text.TightProofs.
+  Text.Gff Text.GffProofs Text.Gtf Text.GtfProofs Text.Bed Text.BedProofs Text.BedRec Text.BedRecProofs Text.BedTyped Text.BedTypedProofs Text.GffLine Text.GffLineProofs Text.GtfLine Text.GtfLineProofs Text.TightProofs
+  Text.GffDirValue Text.GffDirValueProofs Text.GffFile Text.GffFileProofs Text.GffAttrMap Text.GffAttrMapProofs
+  Text.TightSourceProofs Text.LineBridge Text.LineBridgeProofs Io.Source Io.BufReader Io.ReadExactProofs Io.BufReaderProofs.
 Import ListNotations.
 Open Scope N_scope.
 
@@ -273,10 +275,16 @@ Theorem c18_bed_typed_roundtrip : forall fmt64 r vs line rest old,
 Proof. exact bed_typed_roundtrip. Qed.
 Print Assumptions c18_bed_typed_roundtrip.
 
-(* the column-level core used by the theorem above *)
-Theorem c18_bed_columns_split : forall r line, bed_write r = Ok line ->
-  split_all 9 (first_line (line ++ [10])) = bed_std_columns r ++ b_others r.
-Proof. exact bed_fields_roundtrip. Qed.
+(* the column-level core used by the theorems above, at record level (the older split_all reader
+   model of NV.Text.Bed is retired): the written line read into ANY record of that N leaves exactly
+   the written columns in the record -- buffer = the columns concatenated, bounds = their
+   cumulated ends, standard columns first, then the extra ones *)
+Theorem c18_bed_columns_split : forall r line rest old,
+  (3 <= b_n r <= 6)%nat -> bed_write r = Ok line -> length (bf_std old) = b_n r ->
+  bed_read_record (b_n r) (line ++ 10 :: rest) old =
+    {| ro_res := Ok (length line + 1)%nat; ro_src := rest;
+       ro_rec := rec_of_cols (bed_std_columns r) (b_others r) |}.
+Proof. exact bed_record_read. Qed.
 Print Assumptions c18_bed_columns_split.
 
 Theorem c18_bed_start_roundtrip : forall s, 1 <= s <= u64_max -> bed_parse_start (fmt_dec (s - 1)) = Ok s.
@@ -455,3 +463,180 @@ Example demo_roundtrip :
   | _ => False
   end.
 Proof. vm_compute. reflexivity. Qed.
+
+(* ---- typed GFF3 directive values re-parsed from their text (FromStr) ---- *)
+(* core::num on the decimal text the writers emit *)
+Theorem c18_std_parse_uint_fmt : forall max n, n <= max -> std_parse_uint max (fmt_dec n) = IOk n.
+Proof. exact std_parse_uint_fmt. Qed.
+Print Assumptions c18_std_parse_uint_fmt.
+
+Theorem c18_gff_version_roundtrip : forall ma mi, version_ok ma mi ->
+  parse_gff_version (version_text ma mi)
+  = POk (ma, match mi with None => None | Some (m, _) => Some m end,
+             match mi with Some (_, p) => p | None => None end).
+Proof. exact parse_gff_version_roundtrip. Qed.
+Print Assumptions c18_gff_version_roundtrip.
+
+(* ##sequence-region: with positions in range the value comes back IF AND ONLY IF the name is a
+   non-empty run of non-blank bytes (known class gff3-directive-typed-value-blank-not-reparsed) *)
+Theorem c18_gff_sequence_region_roundtrip_iff : forall nm s e,
+  1 <= s <= u64_max -> 1 <= e <= u64_max ->
+  (parse_sequence_region (nm ++ 32 :: fmt_dec s ++ 32 :: fmt_dec e) = POk (nm, s, e)
+   <-> (nm <> [] /\ no_ws nm)).
+Proof. exact parse_sequence_region_roundtrip_iff. Qed.
+Print Assumptions c18_gff_sequence_region_roundtrip_iff.
+
+Theorem c18_gff_genome_build_roundtrip_iff : forall src nm,
+  (parse_genome_build (src ++ 32 :: nm) = POk (src, nm)
+   <-> (src <> [] /\ nm <> [] /\ no_ws src /\ no_ws nm)).
+Proof. exact parse_genome_build_roundtrip_iff. Qed.
+Print Assumptions c18_gff_genome_build_roundtrip_iff.
+
+Theorem c18_gff_sequence_region_blank_refuted :
+  parse_sequence_region ([99; 104; 114; 32; 49] ++ 32 :: fmt_dec 1 ++ 32 :: fmt_dec 2) = POk ([99; 104; 114], 1, 1)
+  /\ parse_sequence_region ([] ++ 32 :: fmt_dec 1 ++ 32 :: fmt_dec 2) = PErr RMissingEnd.
+Proof. exact sequence_region_blank_name_refuted. Qed.
+Print Assumptions c18_gff_sequence_region_blank_refuted.
+
+(* the whole path: write_directive, read the line back, re-parse the text value with the FromStr
+   of the key's type: the typed value that was written ([typed_ok]: u32 components; names non-empty
+   without blanks; positions in range; a String under a typed key comes back as its parse) *)
+Theorem c18_gff_directive_typed_roundtrip : forall d line, directive_ok d -> typed_ok d ->
+  gff_write_directive d = Ok line ->
+  directive_typed_readback d = Ok (Some (typed_expected d)).
+Proof. exact directive_typed_roundtrip. Qed.
+Print Assumptions c18_gff_directive_typed_roundtrip.
+
+Example typed_demo_ok :
+  typed_ok {| d_key := key_sequence_region; d_value := Some (DRegion [99; 116; 103] 1 1497228) |}
+  /\ typed_ok {| d_key := key_gff_version; d_value := Some (DVersion 3 (Some (1, Some 26))) |}.
+Proof.
+  split; cbn [typed_ok d_value]; unfold version_ok, u32_max, u64_max, no_ws;
+    repeat split; try lia; try discriminate; repeat constructor.
+Qed.
+
+(* ---- whole written files ---- *)
+(* GFF3: any sequence of writer calls (records, directives incl. ##FASTA, comments) with blank
+   lines pushed in between, followed by ANY text: the lazy lines seen through ONE reused Line
+   and the owned LineBufs are the written items, in order (blank lines give nothing) *)
+Theorem c18_gff_written_file_roundtrip : forall fmt prs items text tail,
+  Forall (fitem_ok fmt prs) items -> gff_write_file fmt items = Ok text ->
+  gff_file_lines prs (text ++ tail) = flat_map fitem_lazy items ++ gff_file_lines prs tail
+  /\ gff_file_line_bufs prs (text ++ tail) = flat_map fitem_bufs items ++ gff_file_line_bufs prs tail.
+Proof. exact gff_written_file_roundtrip. Qed.
+Print Assumptions c18_gff_written_file_roundtrip.
+
+Theorem c18_gff_written_file_record_bufs : forall fmt prs items text,
+  Forall (fitem_ok fmt prs) items -> Forall fitem_not_fasta items ->
+  gff_write_file fmt items = Ok text ->
+  gff_record_bufs (gff_file_line_bufs prs text) = flat_map fitem_records items.
+Proof. exact gff_written_file_record_bufs. Qed.
+Print Assumptions c18_gff_written_file_record_bufs.
+
+Theorem c18_gtf_written_file_roundtrip : forall fmt prs items text tail,
+  Forall (titem_ok fmt prs) items -> gtf_write_file fmt items = Ok text ->
+  gtf_file_lines prs (text ++ tail) = map titem_lazy items ++ gtf_file_lines prs tail
+  /\ gtf_file_line_bufs prs (text ++ tail) = map titem_buf items ++ gtf_file_line_bufs prs tail.
+Proof. exact gtf_written_file_roundtrip. Qed.
+Print Assumptions c18_gtf_written_file_roundtrip.
+
+Theorem c18_gtf_written_file_record_bufs : forall fmt prs items text,
+  Forall (titem_ok fmt prs) items -> gtf_write_file fmt items = Ok text ->
+  gtf_record_bufs (gtf_file_line_bufs prs text)
+  = flat_map (fun it => match it with TFRecord r => [gtf_owned (gtf_expected r)] | TFComment _ => [] end) items.
+Proof. exact gtf_written_file_record_bufs. Qed.
+Print Assumptions c18_gtf_written_file_record_bufs.
+
+(* the line loops over a DELIVERED source: the caller's `while read_line(&mut line)? != 0` on a
+   std BufReader of ANY capacity >= 1 over ANY reader that may return short reads and
+   Interrupted (C12's NV.Io models) yields exactly gff_read_lines / gtf_read_lines of the whole
+   text -- so every file theorem above holds for every delivery schedule *)
+Theorem c18_gff_lines_delivered : forall (S : Type) (rd : reader S) (Rep : S -> list N -> nat -> Prop),
+  simulates rd Rep -> forall cap, (1 <= cap)%nat -> forall k lines fuel st d m,
+  rep_buf Rep st d m -> (m + length d + 1 < fuel)%nat -> (length d < lines)%nat -> (length d < k)%nat ->
+  gff_lines_delivered rd cap k lines fuel st = Some (gff_read_lines (Datatypes.S (length d)) d).
+Proof. exact (@gff_lines_delivered_spec). Qed.
+Print Assumptions c18_gff_lines_delivered.
+
+Theorem c18_gtf_lines_delivered : forall (S : Type) (rd : reader S) (Rep : S -> list N -> nat -> Prop),
+  simulates rd Rep -> forall cap, (1 <= cap)%nat -> forall k fuel st d m,
+  rep_buf Rep st d m -> (m + length d + 1 < fuel)%nat -> (length d < k)%nat ->
+  gtf_lines_delivered rd cap k fuel st = Some (gtf_read_lines (Datatypes.S (length d)) d).
+Proof. exact (@gtf_lines_delivered_spec). Qed.
+Print Assumptions c18_gtf_lines_delivered.
+
+(* instantiated at C12's scripted source: every script of short reads / Interrupted, every capacity *)
+Theorem c18_gff_lines_scripted : forall data sc cap, (1 <= cap)%nat ->
+  gff_lines_delivered src_read cap (Datatypes.S (length data)) (Datatypes.S (length data))
+      (n_interrupted sc + length data + 2) ([], mkSource data sc)
+  = Some (gff_read_lines (Datatypes.S (length data)) data).
+Proof. exact gff_lines_scripted. Qed.
+Print Assumptions c18_gff_lines_scripted.
+
+Theorem c18_gtf_lines_scripted : forall data sc cap, (1 <= cap)%nat ->
+  gtf_lines_delivered src_read cap (Datatypes.S (length data))
+      (n_interrupted sc + length data + 2) ([], mkSource data sc)
+  = Some (gtf_read_lines (Datatypes.S (length data)) data).
+Proof. exact gtf_lines_scripted. Qed.
+Print Assumptions c18_gtf_lines_scripted.
+
+(* ---- GFF3 attributes as a map: lazy view = owned map ---- *)
+(* every attribute map the writer accepts (a RecordBuf's attributes are an IndexMap: distinct
+   tags; arbitrary bytes in tags and values, 1..k values per tag): the column reads back item by
+   item, the owned map is that list, and the lazy get of every tag = the owned get *)
+Theorem c18_gff_attributes_roundtrip : forall a,
+  Forall attr_ok a -> NoDup (map fst a) ->
+  gff_attrs_parse (gff_attrs_text a) = (canon_attrs a, None)
+  /\ gff_owned_attrs (gff_attrs_text a) = Ok (canon_attrs a)
+  /\ forall tag, gff_attrs_get (gff_attrs_text a) tag = option_map Ok (imap_get (canon_attrs a) tag).
+Proof. exact gff_attributes_roundtrip. Qed.
+Print Assumptions c18_gff_attributes_roundtrip.
+
+(* for ANY column text whose iteration ends normally: lazy get = the FIRST field with the tag *)
+Theorem c18_gff_attrs_get_first : forall col tag items,
+  gff_attrs_parse col = (items, None) ->
+  gff_attrs_get col tag = option_map Ok (assoc_first items tag).
+Proof. exact gff_attrs_get_first. Qed.
+Print Assumptions c18_gff_attrs_get_first.
+
+(* the owned IndexMap keeps the LAST value of a repeated tag *)
+Theorem c18_imap_collect_get_last : forall items k, imap_get (imap_collect items) k = assoc_last items k.
+Proof. exact imap_collect_get_last. Qed.
+Print Assumptions c18_imap_collect_get_last.
+
+(* hence for any column text without a repeated tag the lazy view is the owned map ... *)
+Theorem c18_gff_attrs_get_lazy_eq_owned : forall col items,
+  gff_attrs_parse col = (items, None) -> NoDup (map fst items) ->
+  gff_owned_attrs col = Ok items /\
+  forall tag, gff_attrs_get col tag = option_map Ok (imap_get items tag).
+Proof. exact gff_attrs_get_lazy_eq_owned. Qed.
+Print Assumptions c18_gff_attrs_get_lazy_eq_owned.
+
+(* ... and exactly there: `a=1;a=2` (text no writer produces) gives lazy get 1, owned get 2 *)
+Theorem c18_gff_attrs_get_dup_refuted :
+  gff_attrs_get [97; 61; 49; 59; 97; 61; 50] [97] = Some (Ok (VString [49]))
+  /\ gff_owned_attrs [97; 61; 49; 59; 97; 61; 50] = Ok [([97], VString [50])].
+Proof. exact gff_attrs_get_dup_refuted. Qed.
+Print Assumptions c18_gff_attrs_get_dup_refuted.
+
+(* ---- gff3-source-type-not-encoded, exact ---- *)
+(* whatever the reader hands out as seqid / source / type, for ANY text, has no TAB and no LF *)
+Theorem c18_gff_read_columns_clean : forall prs text l, gff_read prs text = Rec l ->
+  (~ In 9 (l_seqid l) /\ ~ In 10 (l_seqid l))
+  /\ (~ In 9 (l_source l) /\ ~ In 10 (l_source l))
+  /\ (~ In 9 (l_type l) /\ ~ In 10 (l_type l)).
+Proof. exact gff_read_columns_clean. Qed.
+Print Assumptions c18_gff_read_columns_clean.
+
+(* for a record that is otherwise fine, source and type come back IF AND ONLY IF they are free of
+   TAB and LF *)
+Theorem c18_gff_source_type_roundtrip_iff : forall fmt prs r line,
+  bytes_ok (f_seqid r) -> 1 <= f_start r <= u64_max -> 1 <= f_end r <= u64_max ->
+  (forall x, f_score r = Some x ->
+     prs (fmt x) = Some x /\ ~ In 9 (fmt x) /\ ~ In 10 (fmt x) /\ fmt x <> [46]) ->
+  Forall attr_ok (f_attrs r) ->
+  gff_write fmt r = Ok line ->
+  ((exists l, gff_read prs (line ++ [10]) = Rec l /\ l_source l = f_source r /\ l_type l = f_type r)
+   <-> source_type_plain r).
+Proof. exact gff_source_type_roundtrip_iff. Qed.
+Print Assumptions c18_gff_source_type_roundtrip_iff.
